@@ -399,7 +399,7 @@ class GroupVsStatement(Bounded):
     def bound(self, tier):
         r = 3 if tier == "quick" else 4
         return (f"all position-sorted single-player streams on 2 columns x {r} rows x 5 cell kinds (tap, hold head, roll head, tail, mine) "
-                f"and on 3 columns x 2 rows, x 3 same-beat modes x join on/off x 3x3 orphan policies x 5 type subsets (with and without TAIL, and the empty set); counters on every stream")
+                f"and on 3 columns x 2 rows, x 3 same-beat modes x join on/off x 3x3 orphan policies x 5 type subsets (with and without TAIL, and the empty set); counters on every stream; every stream also as a one-shot iterator")
 
     def run(self, tier, seed):
         import itertools, time
@@ -419,6 +419,24 @@ class GroupVsStatement(Bounded):
             cases += 1
             if bad:
                 failures.append(dict(input=[repr(x) for x in stream], detail=bad))
+            # the stream handed over as a one-shot iterator (the API takes any Iterable[Note]): same groups, same counts
+            sbm = list(g.SameBeatNotes)[idx % 3]
+            pol = list(g.OrphanedNotes)[1 + idx % 2]
+            as_list = real_group(stream, frozenset(T), sbm, True, pol, pol)
+            as_iter = real_group(iter(stream), frozenset(T), sbm, True, pol, pol)
+            as_gen = real_group((x for x in stream), frozenset(T), sbm, True, pol, pol)
+            cases += 2
+            if as_iter != as_list or as_gen != as_list:
+                failures.append(dict(input=dict(stream=[repr(x) for x in stream], passed_as="iter(list) / generator", mode=sbm.name, join=True, heads=pol.name, tails=pol.name),
+                                     detail=f"group_notes gives {as_iter!r} for a one-shot iterator over the notes and {as_list!r} for the list"))
+            try:
+                ci, cl = (c.count_holds(iter(stream), orphaned_head=pol, orphaned_tail=pol), c.count_steps(iter(stream))), \
+                         (c.count_holds(stream, orphaned_head=pol, orphaned_tail=pol), c.count_steps(stream))
+            except Exception as e:
+                ci, cl = f"raised {type(e).__name__}: {e}", None
+            if ci != cl:
+                failures.append(dict(input=dict(stream=[repr(x) for x in stream], passed_as="iter(list)", heads=pol.name, tails=pol.name),
+                                     detail=f"count_holds / count_steps give {ci!r} for a one-shot iterator and {cl!r} for the list"))
             for inc, sb in itertools.product(subsets, g.SameBeatNotes):
                 combos = [(False, g.OrphanedNotes.RAISE_EXCEPTION, g.OrphanedNotes.RAISE_EXCEPTION)] + \
                          [(True, oh, ot) for oh in g.OrphanedNotes for ot in g.OrphanedNotes]
